@@ -2,6 +2,8 @@ import Dcg.Proofs.FieldLift
 import Dcg.Proofs.FieldUnionMember
 import Dcg.Proofs.FieldRef
 import Dcg.Proofs.FieldInherit
+import Dcg.Proofs.FieldRefDefault
+import Dcg.Gen.ParsePasses
 /-
 C05 — required, nullable and default semantics of each member are carried over.
 
@@ -886,5 +888,68 @@ theorem reannotation_in_place_witness :
 theorem class_order_rule_only_for_dataclass_and_msgspec (k : Kind) (hd : k ≠ .dc) (hm : k ≠ .ms)
     (base own : List Decl) : classOrderOk k base own = true := by
   cases k <;> first | rfl | exact absurd rfl hd | exact absurd rfl hm
+
+/-! ### Members that take their default from the definition they refer to (`port: {$ref: Port}`, `Port: {type: integer, default: 8080}`)
+
+"The schema's default" of a member that is a bare `$ref` is the default its definition carries. The generator moves it from the
+definition's (root) model to the field in the post-pass `__set_reference_default_value_to_field` of `Parser.parse`; the passes
+`__reuse_model` and `__collapse_root_models` of the same loop restructure what the field refers to. The order of that loop is
+C09's generated table `Dcg.Gen.ParsePasses.calls` and the meaning of the passes C09's `Dcg.Model.ParsePasses` — both imported
+unchanged. A root of that model is any root definition here (no lemma looks at what it wraps); `hasV v d`: the default `d` is
+the value `v` (raw, or converted to an enum member for `v`). -/
+section RefDefault
+open Dcg.Model.ParsePasses Dcg.Proofs.FieldRefDefault
+
+/-- the passes of the per-module loop of `Parser.parse`, as extracted on this run -/
+def parsePasses : List Pass := Dcg.Gen.ParsePasses.calls.map (·.pass)
+
+/-- OBLIGATION ON THE CODE (re-decided by the kernel on the table extracted on every run): in the per-module loop of `Parser.parse`
+the pass `__set_reference_default_value_to_field` is called, unconditionally and exactly once, and not at or after the first call of
+`__collapse_root_models` — i.e. the definition's default is moved to the member while the member still refers to the definition. -/
+theorem reference_default_pass_before_restructuring :
+    Dcg.Gen.ParsePasses.recognised = true ∧
+    Dcg.Gen.ParsePasses.calls.all (fun c => c.pass != .setReferenceDefaultValueToField || !c.guarded) = true ∧
+    before .setReferenceDefaultValueToField .collapseRootModels parsePasses = true := by decide
+
+/-- THE MECHANISM, for pass lists of ANY length and every state (induction over the list, no enumeration): if the reference-default
+pass is called and not at or after the first `__collapse_root_models`, then a member without default of its own that refers to a
+root definition carrying the default `v` ends with the default `v` — whatever else runs before, between and after, with
+`--reuse-model`, `--collapse-root-models` and `--set-default-enum-member` on or off. -/
+theorem definition_default_reaches_member_any_order (o : Dcg.Model.ParsePasses.Opts) (ps : List Pass) (s : Dcg.Model.ParsePasses.St) (i r v : Nat) (f : Dcg.Model.ParsePasses.Field)
+    (hn : noneFrom .setReferenceDefaultValueToField .collapseRootModels ps = true) (hm : .setReferenceDefaultValueToField ∈ ps)
+    (hf : s.fields[i]? = some f) (hty : f.ty = .root r) (hd : f.dflt = .none) (hr : rootDflt s.roots r = some (some v)) :
+    ∃ f', (run o ps s).fields[i]? = some f' ∧ hasV v f'.dflt = true :=
+  definition_default_reaches_state o ps s i r v f hn hm hf hty hd hr
+
+/-- … hence for the pass list the code HAS (the hypothesis about the order is decided on the extracted table): every member that is
+a bare reference to a root definition with default `v` ends with `v`, under every option vector -/
+theorem definition_default_reaches_member (o : Dcg.Model.ParsePasses.Opts) (s : Dcg.Model.ParsePasses.St) (i r v : Nat) (f : Dcg.Model.ParsePasses.Field)
+    (hf : s.fields[i]? = some f) (hty : f.ty = .root r) (hd : f.dflt = .none) (hr : rootDflt s.roots r = some (some v)) :
+    ∃ f', (run o parsePasses s).fields[i]? = some f' ∧ hasV v f'.dflt = true :=
+  definition_default_reaches_state o parsePasses s i r v f (by decide) (by decide) hf hty hd hr
+
+/-- the hypotheses are satisfiable: root 5 carries the default 3, the one field refers to it and has none of its own; with
+`--collapse-root-models` the field ends as the root's type with the default 3 -/
+example : (run ⟨true, true, false⟩ parsePasses ⟨[⟨1, 7⟩], [⟨5, 1, some 3⟩], [⟨.root 5, .none⟩]⟩).fields = [⟨.copy 1, .raw 3⟩] := by decide
+
+/-- a default of the member's own is never replaced (any pass list, any order, any options): the definition's default is only
+taken by a member that has none -/
+theorem own_default_wins_over_definition (o : Dcg.Model.ParsePasses.Opts) (ps : List Pass) (s : Dcg.Model.ParsePasses.St) (i v : Nat) (f : Dcg.Model.ParsePasses.Field)
+    (hf : s.fields[i]? = some f) (hd : hasV v f.dflt = true) :
+    ∃ f', (run o ps s).fields[i]? = some f' ∧ hasV v f'.dflt = true :=
+  own_default_kept_state o ps s i v f hf hd
+
+/-- the order hypothesis is NEEDED (kernel-checked refutation of the statement without it): with the reference-default pass AFTER
+`__collapse_root_models` the member has been folded into the root's type, refers to no definition any more, and ends WITHOUT
+default — while its sibling with a default of its own keeps it -/
+theorem reference_default_after_collapse_loses_it :
+    let s : Dcg.Model.ParsePasses.St := ⟨[⟨1, 7⟩], [⟨5, 1, some 3⟩], [⟨.root 5, .none⟩, ⟨.root 5, .raw 4⟩]⟩
+    let moved := (parsePasses.filter (· != .setReferenceDefaultValueToField)).flatMap
+      (fun p => if p = .collapseRootModels then [p, .setReferenceDefaultValueToField] else [p])
+    (run ⟨false, true, false⟩ moved s).fields = [⟨.copy 1, .none⟩, ⟨.copy 1, .raw 4⟩] ∧
+    (run ⟨false, true, false⟩ parsePasses s).fields = [⟨.copy 1, .raw 3⟩, ⟨.copy 1, .raw 4⟩] ∧
+    (run ⟨false, false, false⟩ moved s).fields = [⟨.root 5, .raw 3⟩, ⟨.root 5, .raw 4⟩] := by decide
+
+end RefDefault
 
 end Dcg.Props.C05
